@@ -108,7 +108,10 @@ def _grid_chunk(args):
                         o = _mk(side, kind, frags)
                         b = Blotter(MID)
                         b[o.id] = o
-                        book = _Book([_R(1, res)] + [_R(i + 2, r) for i, r in enumerate(others)], mt, ew, nwin)
+                        # a second line of the same selection id (handicap 7.5) with another result is listed after
+                        # the order's own runner: results are per (selection id, handicap)
+                        decoy = _R(1, "LOSER" if res != "LOSER" else "ACTIVE", hc=7.5)
+                        book = _Book([_R(1, res)] + [_R(i + 2, r) for i, r in enumerate(others)] + [decoy], mt, ew, nwin)
                         b.process_closed_market(_Mkt({}), book)
                         got = o.profit
                         prof[side] = got
@@ -230,8 +233,13 @@ def _e2e_one(args):
     ticks.append([500, ["CL", result]])
     strategies = []
     for c in range(nclients):
-        acts = [["P", dict(ORDER_MENU[i])] for k, i in enumerate(order_idx) if k % nclients == c]
-        strategies.append(dict(script={(0, 0): acts}, client=c, kw=dict(max_order_exposure=None, max_selection_exposure=None, max_live_trade_count=100), name="S%d" % c))
+        mine = [i for k, i in enumerate(order_idx) if k % nclients == c]
+        acts = [["P", dict(ORDER_MENU[i])] for i in mine]
+        script = {(0, 0): acts}
+        if mine and mine[0] == 4 and not removal:
+            # the resting order is replaced to a price that matches: the replacement belongs to the same client
+            script[(0, 1)] = [["R", 0, 2.0]]
+        strategies.append(dict(script=script, client=c, kw=dict(max_order_exposure=None, max_selection_exposure=None, max_live_trade_count=100), name="S%d" % c))
     ck = {i: dict(commission_base=rate) for i in range(nclients)}
     w = simx.SimWorld([(spec, ticks)], strategies, n_clients=nclients, client_kw=ck).run()
     out = []
@@ -265,7 +273,11 @@ def _e2e_one(args):
         elif abs(F(str(got)) - exp) > _tol(frags, M.get("ew")):
             out.append(core.v("C08.a", (M["market_type"], str(res), o.side, kind, "dh" if dh else "nodh"), "e2e %s %s frags=%s result=%s: profit %s expected %s" % (kind, o.side, frags, res, got, float(exp)), dict(args=args)))
         if o.size_matched > 0:
-            pc = per_client.setdefault(o.client.username, [F(0), 0, F(0)])
+            # the client is the one of the strategy that owns the order (strategy k trades through client k)
+            owner = w.clients[w.strategies.index(o.trade.strategy)].username
+            if kind == "LIMIT" and len(o.trade.orders) > 1:
+                counts["e2e_replacements_matched"] = counts.get("e2e_replacements_matched", 0) + 1
+            pc = per_client.setdefault(owner, [F(0), 0, F(0)])
             pc[0] += exp
             pc[1] += 1
             pc[2] += _tol(frags, M.get("ew"))
@@ -326,7 +338,7 @@ def run(tier):
         rep.merge_counts(r["counts"])
         if r["outcome"]:
             rep.outcomes.add(r["outcome"])
-    rep.need("e2e_matched_orders", "e2e_sp_fills", "e2e_reduced_prices")
+    rep.need("e2e_matched_orders", "e2e_sp_fills", "e2e_reduced_prices", "e2e_replacements_matched")
     rep.sample({"e2e_case": jobs[len(jobs) // 2]})
     rep.sample({"e2e_case": jobs[-1]})
     rep.states = len(frag_sets) * len(scs) * 3 + len(jobs)
